@@ -333,6 +333,9 @@ func (s *Solver) checkCB(extra *Term) (SatResult, []uint64) {
 			ex = extra.str(9)
 		}
 		fmt.Fprintf(os.Stderr, "SLOWQ %.1fs %s: %s\n", d.Seconds(), res, ex)
+		if s.log != nil {
+			fmt.Fprintf(s.log, "; SLOW %.1fs %s\n", d.Seconds(), res)
+		}
 	}
 	if res == Sat && s.pendingCB != nil {
 		s.pendingCB(s.getValues)
